@@ -199,6 +199,12 @@ def selections(D, rng, limit):
     """(R, X, T, bogus) tuples for D; X is kept inside the part selected by R (the quantifier)."""
     n = D["n"]
     nodes = list(range(1, n + 1))
+    if D.get("focus") == "debugchain":
+        # chains of debug nodes below the selected leaves: every non-empty set of non-debug nodes as targets
+        plain = [k for k in nodes if D["kind"][k - 1] != "debug"]
+        out = [(None, None, list(c), 0) for r in range(1, len(plain) + 1) for c in itertools.combinations(plain, r)]
+        out += [(None, [x], None, 0) for x in nodes] + [(None, [x], [t], 0) for x in nodes for t in plain if t != x][:8]
+        return out
     subs = [None] + [list(c) for r in range(0, n + 1) for c in itertools.combinations(nodes, r)]
     out = []
     for R in subs:
@@ -291,6 +297,25 @@ def dag_space(n, rng, const_mode="sample", with_illegal=True):
                 if setups and legal(D2) and rng.random() < 0.3:
                     out.append(dict(D2, setuparg=rng.choice(setups)))
     return out
+
+
+def debug_chain_dags(n, rng, count):
+    """DAGs on n nodes in which a debug node depends on another debug node and on something else (C03 / C13: the
+    fixed point that takes runnable debug nodes along with a sub-graph run)."""
+    import sched_driver as sd
+
+    out = []
+    for shape in sd.all_shapes(n):
+        for nreg in range(1, n - 1):
+            kinds = ["reg"] * nreg + ["debug"] * (n - nreg)
+            D = {"n": n, "deps": shape, "kind": kinds, "const": [False] * n, "tags": {}, "focus": "debugchain"}
+            if not legal(D):
+                continue
+            if not any(kinds[k - 1] == "debug" and len(shape[k - 1]) >= 2 and any(kinds[d - 1] == "debug" for d in shape[k - 1])
+                       for k in range(1, n + 1)):
+                continue
+            out.append(D)
+    return out if len(out) <= count else rng.sample(out, count)
 
 
 def _work(args):
